@@ -686,3 +686,105 @@ def value_leaves(body, e, depth=0, seen=None):
             out += value_leaves(body, a, depth + 1, seen)
         return out
     return [e]
+
+
+# ---------------------------------------------------------------------------- FSM extraction (K8)
+def fsm_extract(body, state_adt_pat, dispatch_pat=r"^discr\(std::mem::replace\("):
+    """Extract the transition relation of a `match mem::replace(state, Poison)` dispatch loop.
+    Returns dict arm -> {'pending': [(variant, fields, site)] stores that are the last store before a Poll::Pending result,
+                        'next': [(variant, fields, site)] last stores before looping back,
+                        'exits': set of result kinds ('Pending','Ready(Ok)','Ready(Err)','residual','panic'),
+                        'pending_unrestored': bool, 'continue_unstored': bool, 'entry': bb}"""
+    rx = re.compile(dispatch_pat)
+    disp = None
+    for bi in sorted(body.live):
+        info = body.switch_info(bi)
+        if info and rx.search(render(info[0])):
+            disp = (bi, info)
+            break
+    if disp is None:
+        raise mir.RuleError("state dispatch not found in %s" % body.npath)
+    dbb, (cond, labs) = disp
+    # loop head: the block of the mem::replace call feeding the dispatch
+    head = None
+    for s in mir.walk(cond):
+        if s[0] == "call":
+            head = s[3]
+            break
+    # state stores
+    arx = re.compile(state_adt_pat)
+    stores = {}
+    for bi in body.live:
+        for si, st in enumerate(body.blocks[bi]["stmts"]):
+            if st["k"] == "assign" and st["p"].get("pr"):
+                prs = st["p"]["pr"]
+                if not (prs[-1]["k"] == "deref" or any(pr["k"] == "field" and pr["n"] == "state" for pr in prs)):
+                    continue
+                e = body.rvalue_expr(st["r"])
+                if e[0] == "agg" and e[1] == "adt" and arx.search(strip_generics(e[2])):
+                    stores.setdefault(bi, []).append((e[3], dict((f, render(x)) for f, x in e[4]), Site(body, bi, si)))
+    # result sites: assignments to _0
+    results = {}
+    for d in body.defs.get(0, []):
+        bi = d[1]
+        if d[0] == "stmt":
+            e = body.rvalue_expr(d[3])
+            r = render(e)
+            if r.startswith("std::task::Poll::Pending"):
+                k = "Pending"
+            elif r.startswith("std::task::Poll::Ready{0: std::result::Result::Ok") or r.startswith("std::task::Poll::Ready{0: std::option::Option::Some{0: std::result::Result::Ok"):
+                k = "Ready(Ok)"
+            elif r.startswith("std::task::Poll::Ready{0: std::result::Result::Err") or r.startswith("std::task::Poll::Ready{0: std::option::Option::Some{0: std::result::Result::Err"):
+                k = "Ready(Err)"
+            elif r.startswith("std::task::Poll::Ready"):
+                k = "Ready"
+            else:
+                k = "other"
+        else:
+            k = "residual" if "from_residual" in body.call_name(d[3]) else "call"
+        results[bi] = k
+    out = {}
+    for tgt, ls in labs.items():
+        for arm in ls:
+            rec = {"pending": [], "next": [], "exits": set(), "pending_unrestored": False, "continue_unstored": False, "entry": tgt}
+            # walk paths: state = last store seen (None at entry); DFS over (block, last_store_block)
+            seen = set()
+            stack = [(tgt, None)]
+            while stack:
+                b, last = stack.pop()
+                if (b, last) in seen:
+                    continue
+                seen.add((b, last))
+                if b in stores:
+                    last = b
+                if b in results:
+                    k = results[b]
+                    rec["exits"].add(k)
+                    rec.setdefault("on", {}).setdefault(k, [])
+                    for v in (stores[last] if last is not None else [(None, {}, None)]):
+                        if v not in rec["on"][k]:
+                            rec["on"][k].append(v)
+                    if k == "Pending":
+                        if last is None:
+                            rec["pending_unrestored"] = True
+                        else:
+                            for v in stores[last]:
+                                if v not in rec["pending"]:
+                                    rec["pending"].append(v)
+                    continue
+                t = body.blocks[b]["term"]
+                if t and t["k"] == "call" and "t" not in t:
+                    rec["exits"].add("panic")
+                    continue
+                for s in body.succ[b]:
+                    if s == head:
+                        if last is None:
+                            rec["continue_unstored"] = True
+                        else:
+                            for v in stores[last]:
+                                if v not in rec["next"]:
+                                    rec["next"].append(v)
+                        continue
+                    stack.append((s, last))
+            out[arm] = rec
+    return out
